@@ -12,8 +12,9 @@ import c12tables as ct
 
 VERS = ["", "-13", "-31", "-32", "-35"]
 DEFECTS = ("cache", "merge", "own")           # model flags, in the order of the driver's FLAGS line
-ALLDEF = DEFECTS + ("overflow",)              # "overflow" concerns the file reader: predicted on the Python side
-MATCH = {"cache": "stale_cache", "merge": "merge_unsorted", "own": "load_after_merge_ownership", "overflow": "tabled_line_overflow"}
+ALLDEF = DEFECTS + ("overflow", "flagcol")    # these two concern the file readers: predicted on the Python side
+MATCH = {"cache": "stale_cache", "merge": "merge_unsorted", "own": "load_after_merge_ownership", "overflow": "tabled_line_overflow",
+         "flagcol": "flag_column_stale_read"}
 MAXSEQ = 1023                                 # members a Table D reader can hold (int descriptors[1024], the first is the key)
 KINDNO = {"num": 0, "code": 1, "flag": 2, "str": 3}
 UNITS = ["NUMERIC", "CODE TABLE", "FLAG TABLE", "CCITT IA5", "K", "M/S", "PA", "Code table", "Flag table", "CODETABLE", "TABLE CODE",
@@ -42,6 +43,11 @@ class Files:
                 p = ct.read_cmc_b(path)
             ents = p["entries"]
             ver = p["version"]
+            if fmt != "csv" and p["flagcol"] is not None:
+                # entries the CURRENT reader drops because it sees a stale '-' in the flag column (recorded defect)
+                st = ct.stale_flag_lines(path, p["flagcol"])
+                for e in ents:
+                    e["stale_skip"] = e["line"] in st
         else:
             ents = ct.read_csv_d(path) if fmt == "csv" else ct.read_cmc_d(path)
             # a sequence the reader cannot hold may be refused (then it is absent) but must not be truncated or crash
@@ -53,12 +59,14 @@ class Files:
     def path(self, name):
         return self.f[name]["path"]
 
-    def defline(self, name):
+    def defline(self, name, flagcol_fixed=True):
         f = self.f[name]
         if f["kind"] == "B":
-            # the model receives what the independent reader read (fuzzy entries never reach the model: see gen)
+            # the model receives what the independent reader read (fuzzy entries never reach the model: see gen); while the
+            # defect flag_column_stale_read is in the tree, minus the entries its reader drops
             return "DEFB %s %d %s" % (name, -1 if f["version"] is None else f["version"],
-                                      " ".join("%d,%d,%d,%d,%d" % (e["desc"], KINDNO[e["kind"]], e["scale"], e["ref"], e["width"]) for e in f["entries"]))
+                                      " ".join("%d,%d,%d,%d,%d" % (e["desc"], KINDNO[e["kind"]], e["scale"], e["ref"], e["width"]) for e in f["entries"]
+                                               if flagcol_fixed or not e.get("stale_skip")))
         return "DEFD %s %s" % (name, " ".join("%d:%s" % (k, ",".join(map(str, seq))) for k, seq, fz in f["entries"] if len(seq) <= MAXSEQ))
 
     def too_long(self, name):
@@ -148,19 +156,19 @@ def run_library(exe, lines):
 
 def run_model(drv, files, cases):
     """cases: list of (flags dict defect->fixed?, ops).  -> list of token lists"""
-    names = []
-    for _, ops in cases:
-        for n in hist_files(ops):
-            if n not in names:
-                names.append(n)
-    text = [files.defline(n) for n in names]
+    text = []
+    defined = {}
     cur = None
     for fl, ops in cases:
+        for n in dict.fromkeys(hist_files(ops)):
+            if defined.get(n) != fl["flagcol"]:
+                text.append(files.defline(n, fl["flagcol"]))
+                defined[n] = fl["flagcol"]
         key = tuple(fl[d] for d in DEFECTS)
         if key != cur:
             text.append("FLAGS " + " ".join("1" if x else "0" for x in key))
             cur = key
-        text.append(hist_line(ops) if ops else "")
+        text.append("H " + hist_line(ops))
     rc, out, err = vlib.sh([drv], input=("\n".join(text) + "\n").encode("latin-1"), timeout=3000)
     if rc != 0:
         dump = os.path.join(vlib.scratch(), "c12_model_input.txt")
@@ -374,9 +382,12 @@ def oracle(files, ops, tokens):
         elif k == "MD":
             sq = list(o[1])
             havers = [d for tb in (sp.lD, sp.mD) for d, defs in tb.items() if any(s == sq for s, _ in defs)]
+            # a descriptor the same file defines twice with different sequences may keep either: only an unambiguous
+            # definition must be matched
+            sure = [d for tb in (sp.lD, sp.mD) for d, defs in tb.items() if all(s == sq and not fz for s, fz in defs)]
             if t == "M:ABSENT":
-                if havers and sq:
-                    fails.append((i, "the sequence %s is the definition of %06d but no match was reported" % (sq, havers[0])))
+                if sure and sq:
+                    fails.append((i, "the sequence %s is the definition of %06d but no match was reported" % (sq, sure[0])))
             else:
                 d = int(t.split(":")[1])
                 if d not in havers:
@@ -497,8 +508,11 @@ def gen_b_file(rng, files, name, feat, pool, n=None, fmt=None, version=None, mus
     ruler = {"ruler6": 6, "ruler7": 7}.get(fmt)
     if ruler == 7:
         for e in ents:
-            if rng.random() < 0.15:
+            r = rng.random()
+            if r < 0.15:
                 e["flag"] = "-"; feat["b_withdrawn_flag"] += 1
+            elif r < 0.35:
+                e["flag"] = "none"; feat["b_line_ends_before_flag_column"] += 1
     text, cols, flagcol = b_file_text(rng, ents, feat, ruler, version)
     # lines that are not entries: short lines, foreign first characters
     extra = []
@@ -606,7 +620,7 @@ class Ctx:
     pass
 
 
-def classify(rep, ctx, files, ops, ctoks, crash, label):
+def classify(rep, ctx, files, ops, ctoks, crash, label, allow_input=True, allow_corr=True):
     """compare library, model and oracle on one history; returns True when a violation/finding was recorded"""
     line = hist_line(ops)
     mtoks = ctx.model[label] if isinstance(label, int) else label
@@ -615,10 +629,9 @@ def classify(rep, ctx, files, ops, ctoks, crash, label):
     same = ccanon == mtoks
     if not fails and same:
         return False
-    replay = {"kind": "history", "history": [list(map(lambda x: list(x) if isinstance(x, tuple) else x, o)) for o in ops],
-              "files": {n: {"kind": files.f[n]["kind"], "fmt": files.f[n]["fmt"], "text": files.f[n]["text"], "path": None if files.f[n]["text"] is not None else os.path.relpath(files.f[n]["path"], vlib.REPO)}
-                        for n in dict.fromkeys(hist_files(ops))},
-              "impl": " ".join(ctoks)[:2000], "model": " ".join(mtoks)[:2000], "sanitizer": crash}
+    if (fails and not allow_input) or (not fails and not allow_corr):
+        return False
+    replay = replay_dict(files, ops, ctoks, mtoks, crash)
     if fails:
         i, msg = fails[0]
         # is this exactly the behaviour of a recorded, still open defect?  (the faithful model reproduces the library's
@@ -643,12 +656,43 @@ def classify(rep, ctx, files, ops, ctoks, crash, label):
                         rep.violation("C12: %s  [history: %s ; answers: %s]  (defect class %s, not recorded as an open finding)"
                                       % (msg, line[:400], " ".join(ccanon)[:300], "+".join(MATCH[d] for d in S)), replay)
                         return True
+        if ctx.nshrunk < 3 and len(ops) > 2:
+            # the shortest history (greedy removal of operations) on which the library still contradicts the oracle
+            ctx.nshrunk += 1
+            small = shrink(ctx, files, ops, lambda cand: lib_fails(ctx, files, cand))
+            if len(small) < len(ops):
+                (t2, c2), = run_library(ctx.exe, [hist_line(small, files)])
+                t2 = t2 + (["CRASH"] if c2 else [])
+                f2 = oracle(files, small, t2)
+                if f2:
+                    ops, ctoks, crash, msg = small, t2, c2, f2[0][1]
+                    line, ccanon = hist_line(ops), [canon_token(t) for t in t2]
+                    replay = replay_dict(files, ops, ctoks, [], crash)
         rep.violation("C12: %s  [history: %s ; answers: %s]%s" % (msg, line[:400], " ".join(ccanon)[:300], (" ; " + crash) if crash else ""), replay)
         return True
     rep.violation("C12: correspondence Tables.v <-> bufr_tables.c broken (the oracle accepts the library's answers): history %s ; library %s ; model %s"
                   % (line[:300], " ".join(ccanon)[:300], " ".join(mtoks)[:300]),
                   dict(replay, correspondence="Tables.run vs bufr_load_*/bufr_merge_tables/bufr_fetch_table[BD]"), no_input=True)
     return True
+
+
+def ops_to_json(ops):
+    return [[list(a) if isinstance(a, tuple) else a for a in o] for o in ops]
+
+
+def ops_from_json(hist):
+    out = []
+    for o in hist:
+        out.append(tuple(tuple(a) if isinstance(a, list) else a for a in o))
+    return out
+
+
+def replay_dict(files, ops, ctoks, mtoks, crash):
+    return {"kind": "history", "history": ops_to_json(ops),
+            "files": {n: {"kind": files.f[n]["kind"], "fmt": files.f[n]["fmt"], "text": files.f[n]["text"],
+                          "path": None if files.f[n]["text"] is not None else os.path.relpath(files.f[n]["path"], vlib.REPO)}
+                      for n in dict.fromkeys(hist_files(ops))},
+            "impl": " ".join(ctoks)[:2000], "model": " ".join(mtoks)[:2000], "sanitizer": crash}
 
 
 def combos(l, k):
@@ -688,6 +732,9 @@ def witness_files(files):
     b = lambda d, sc, rf, w: dict(desc=d, name="W%d" % d, unit="NUMERIC", scale=sc, ref=rf, width=w)
     files.add_text("w_m", "B", "cmc", "* w\n" + "".join(ct.fmt_b_line(b(d, 1, d, 10)) + "\n" for d in (10010, 20020, 30030)))
     files.add_text("w_l", "B", "cmc", "* w\n" + "".join(ct.fmt_b_line(b(d, 2, -d, 12)) + "\n" for d in (1001, 2002, 3003, 30030)))
+    cols, fc = list(ct.DEFAULT_COLS), 86
+    files.add_text("w_flag", "B", "cmc", ct.ruler_line(cols, fc) + "\n" + ct.fmt_b_line(dict(b(12101, 1, 0, 10), flag="-"), cols, fc) + "\n"
+                   + ct.fmt_b_line(dict(b(12102, 2, 0, 11), flag="none"), cols, fc) + "\n")
     files.add_text("w_long", "D", "cmc", "* w\n301001 " + " ".join(["1"] * 1100) + "\n")
     files.add_text("w_d1", "D", "cmc", "* w\n310010 001001 001002\n320020 002001\n330030 003001 003002\n")
     files.add_text("w_d2", "D", "cmc", "* w\n301001 001001\n302002 002001\n303003 003001\n330030 004001 004002 004003\n")
@@ -695,6 +742,7 @@ def witness_files(files):
 
 WITNESS = {
     "overflow": [("LLD", "w_long"), ("FD", 301001)],
+    "flagcol": [("LLB", "w_flag"), ("FB", 12102)],
     "cache": [("LMB", "w_m"), ("FB", 30030), ("LLB", "w_l"), ("FB", 30030)],
     "merge": [("LLB", "w_m"), ("LLB", "w_l"), ("FB", 30030)],
     "own": [("MERGE", "w_m", None, None, None), ("LMB", "w_l"), ("FB", 1001)],
@@ -714,6 +762,7 @@ def run(rep, tier, seed, replay=None):
     os.makedirs(fdir, exist_ok=True)
     files = Files(fdir)
     ctx.open = {f["match"]: "%s: %s" % (f["match"], f.get("what", "")) for f in vlib.known_findings("C12")}
+    ctx.nshrunk = 0
     ctx.known_hits = collections.Counter()
     ctx.known_examples = collections.defaultdict(list)
 
@@ -733,8 +782,7 @@ def run(rep, tier, seed, replay=None):
                     files.add_text(n, f["kind"], f["fmt"], f["text"])
                 else:
                     files.add_path(n, f["kind"], f["fmt"], os.path.join(vlib.REPO, f["path"]))
-            ops = [tuple(tuple(x) if isinstance(x, list) and x and x[0] == "csv" else x for x in o) for o in replay["history"]]
-            ops = [tuple(list(o[:1]) + [tuple(a) if (o[0] in ("MD",) and isinstance(a, list)) else a for a in o[1:]]) for o in ops]
+            ops = ops_from_json(replay["history"])
             batches.append(("replay", ops))
     else:
         batches += gen_exhaustive(rng, files, feat, tier)
@@ -747,20 +795,21 @@ def run(rep, tier, seed, replay=None):
     # ---------------- run both sides
     lib_lines = [hist_line(ops, files) for _, ops in batches]
     lib_res = run_library(ctx.exe, lib_lines)
-    mcases = [(ctx.flags, [o for o in ops if o[0] != "LOADLIST"] if lab != "loadlist" else []) for lab, ops in batches]
+    mcases = [(ctx.flags, ops if not lab.startswith("oracle_only:") else []) for lab, ops in batches]
     mres = run_model(ctx.drv, files, mcases)
     nviol = 0
+    ncorr = 0
     crashes = 0
     for idx, (lab, ops) in enumerate(batches):
         ctoks, crash = lib_res[idx]
         if crash:
             ctoks = ctoks + ["CRASH"]; crashes += 1
-        if lab == "loadlist":
-            mt = [canon_token(t) for t in ctoks]            # no model for directory scanning: oracle only
+        if lab.startswith("oracle_only:"):
+            mt = [canon_token(t) for t in ctoks]            # no model run (directory scanning, bulk lookups): oracle only
         else:
             mt = python_prediction(files, ops, mres[idx], ctx.flags)
         rep.count((lab, hist_line(ops), tuple(sorted((n, hash(files.f[n]["text"])) for n in set(hist_files(ops))))))
-        feat["histories_" + lab.split(":")[0]] += 1
+        feat["histories_" + lab.replace("oracle_only:", "").split(":")[0] + ("(oracle only)" if lab.startswith("oracle_only:") else "")] += 1
         feat["operations"] += len(ops)
         for o in ops:
             feat["op_" + o[0]] += 1
@@ -769,8 +818,14 @@ def run(rep, tier, seed, replay=None):
             elif t.startswith("rc=-"): feat["loads_reporting_an_error"] += 1
         if idx % 97 == 0:
             rep.sample({"history": hist_line(ops)[:300], "impl": " ".join(ctoks)[:300], "model": " ".join(mt)[:300]})
-        if nviol < 12 and classify(rep, ctx, files, ops, ctoks, crash, mt):
-            nviol += 1
+        # at most 12 reports with a failing input and 4 correspondence-only reports
+        if (nviol < 12 or ncorr < 4):
+            before = len(rep.violations)
+            if classify(rep, ctx, files, ops, ctoks, crash, mt, allow_input=nviol < 12, allow_corr=ncorr < 4) and len(rep.violations) > before:
+                if rep.violations[-1][2]:
+                    ncorr += 1
+                else:
+                    nviol += 1
     # (c') a lookup must not depend on earlier lookups: the same loads on a fresh object, only the last lookup kept
     nfresh = fresh_object_check(rep, ctx, files, batches, lib_res, feat, tier)
     # ---------------- defects present in the tree: recorded (open finding) or new (violation with the witness)
@@ -782,10 +837,11 @@ def run(rep, tier, seed, replay=None):
                 ops = WITNESS[d]
                 (toks, crash), = run_library(ctx.exe, [hist_line(ops, files)])
                 rep.violation("C12: %s  [history: %s ; answers: %s]%s" % (oracle(files, ops, toks + (["CRASH"] if crash else []))[0][1], hist_line(ops), " ".join(map(canon_token, toks)), (" ; " + crash) if crash else ""),
-                              {"kind": "history", "history": [list(o) for o in ops], "files": {n: {"kind": files.f[n]["kind"], "fmt": "cmc", "text": files.f[n]["text"], "path": None} for n in hist_files(ops)}})
+                              replay_dict(files, ops, toks, [], crash))
     for d, ex in ctx.known_examples.items():
         for e in ex:
             feat["known_finding_hits_" + MATCH[d]] = ctx.known_hits[d]
+    rep.violations.sort(key=lambda v: v[2])          # reports with a concrete failing input first
     if not proved and not rep.violations:
         rep.violation("C12: proof obligations no longer check (see log) and no failing input was found by the correspondence run",
                       getattr(rep, "proof_broken", {}), no_input=True)
@@ -825,13 +881,20 @@ def gen_exhaustive(rng, files, feat, tier):
         # a second pass in another order exercises the filled cache and the last-hit shortcut
         sh = list(bd); rng.shuffle(sh)
         ops += [("FB", d) for d in sh[:400]] + [("FB", sh[0]), ("FB", sh[0])]
-        out.append(("shipped:" + (v or "cur"), ops))
+        # every line: library + oracle; the extracted model runs the complete history in the thorough tier only (the
+        # model side of "every line" is the finite theorem C12_shipped_lookup_exact), a sample of it in the quick tier
+        out.append((("shipped:" if tier == "thorough" else "oracle_only:shipped:") + (v or "cur"), ops))
+        if tier != "thorough":
+            sb = rng.sample(bd, min(len(bd), 250)); sd = rng.sample(dd, min(len(dd), 120))
+            ops2 = [("LMB", nb), ("LMD", nd), ("VER",)] + [("FB", d) for d in sb + [x + 1 for x in sb[:40]]] + [("FD", d) for d in sd + [x + 1 for x in sd[:20]]]
+            ops2 += [("FB", d) for d in sb[:60][::-1]] + [("FB", sb[0]), ("FB", sb[0])]
+            out.append(("shipped_sample:" + (v or "cur"), ops2))
         feat["shipped_tableB_lines"] += len(bd); feat["shipped_tableD_lines"] += len(dd)
         if tier == "thorough":
             ops = [("LMB", nb), ("LMD", nd)] + [("FB", d) for d in range(0, 100000) if d not in set(bd)]
-            out.append(("loadlist", ops))          # oracle only (no model run for 100000 lookups)
+            out.append(("oracle_only:all_absent_B", ops))          # oracle only (no model run for 100000 lookups)
             ops = [("LMB", nb), ("LMD", nd)] + [("FD", d) for d in range(300000, 364000) if d not in set(dd)]
-            out.append(("loadlist", ops))
+            out.append(("oracle_only:all_absent_D", ops))
     lb, ld = os.path.join(vlib.REPO, "Test", "local_table_b"), os.path.join(vlib.REPO, "Test", "local_table_d")
     if os.path.exists(lb) and os.path.exists(ld) and "ship_b" in files.f:
         files.add_path("test_lb", "B", "cmc", lb)
@@ -995,7 +1058,7 @@ def fresh_object_check(rep, ctx, files, batches, lib_res, feat, tier):
             if o[0] == "NEW":
                 seg_start = i + 1
             if o[0] in ("FB", "FD") and any(p[0] in ("FB",) for p in ops[seg_start:i]):
-                if tier == "quick" and len(cases) >= 700:
+                if tier == "quick" and (len(cases) >= 260 or any(n.startswith("ship_") for n in hist_files(ops))):
                     break
                 cases.append((idx, i, [p for p in ops[seg_start:i] if p[0] not in ("FB", "FD", "MD", "VER")] + [o]))
     if not cases:
@@ -1081,5 +1144,5 @@ def gen_versions(rng, files, feat, tier):
             present = [fv for (n, fv) in have if n in nos]
             req = rng.choice(present) if present and rng.random() < 0.7 else rng.randint(10, 40)
             lops.append(("LOADLIST", T, tuple(nos), req, tuple(present)))
-        out.append(("loadlist", lops))
+        out.append(("oracle_only:loadlist", lops))
     return out
